@@ -461,7 +461,7 @@ func l7(n int) [][]dump.File {
 	if n <= 257 {
 		la, _ := scale.LongArgs(n)
 		out = append(out, scale.Wide(n), scale.Imports(n), scale.ManyUses(n), scale.ManyAugments(n), scale.ManyDeviations(n), scale.ManyModuleIdentities(n),
-			[]dump.File{scale.Counts(n)}, []dump.File{scale.ManyLeaves(n)}, []dump.File{la})
+			[]dump.File{scale.Counts(n)}, []dump.File{scale.ManyLeaves(n)}, []dump.File{la}, []dump.File{scale.UsesInOneNode(n)})
 	}
 	if n <= 64 {
 		out = append(out, scale.AugmentLadder(n), scale.EqualNames(n))
